@@ -8,7 +8,7 @@
   sequence, they hold after any number of crashes at any storage operations, with any recovery
   and follow-up activity — no bound on histories, clients or crash points.
 -/
-import Zed.Proofs.StoreTables
+import Zed.Proofs.StoreBranch
 namespace Zed.Props.C17
 open Zed.Store
 
@@ -69,6 +69,60 @@ theorem crash_wedged (j : Nat) (s : Sys) (h : Reach j s) (e c0 : Nat)
   subst hee
   obtain ⟨hw, hH⟩ := wedged_run ls ⟨he', hbehind, hwho⟩ hn hstop
   exact ⟨hH, hw.inv.range⟩
+
+/-- **crash_durable_commits** — every acknowledged branch commit survives: after any crashes,
+    recoveries and further activity it is still exactly once on the parent chain from its branch's
+    visible tip (pool j created before, not deleted, its branches not removed). -/
+theorem crash_durable_commits (j : Nat) (hj : j ≠ 0) (s : Sys) (h : ReachB j s) (x : Ack)
+    (hx : x ∈ s.acks) (hxj : x.pool = j) (ls : List Label) (hn : NoReset j ls) (hd : NoDrop j ls) :
+    ∃ t tip, visibleTable (s.run ls).store j = some t ∧ Table.get t x.branch = some tip ∧
+      (chain (s.run ls).store j tip).count x.id = 1 := by
+  obtain ⟨e, h1, _, h3⟩ := (h.run ls hn hd).inv hj
+  obtain ⟨t, tip, a1, a2, a3⟩ := h3.paths x (run_acks_mono ls s x hx) hxj _ (Nat.le_refl _) h1.he
+  exact ⟨t, tip, a1, a2, a3.count_chain (objsDecr_of_inv3 h3)⟩
+
+/-- **crash_atomic_commit** — a branch commit interrupted anywhere is all or nothing: either its
+    commit id occurs in no journal entry (nothing of it is visible; its object, if written, is
+    unreachable garbage), or its journal entry exists and then its commit object exists, complete,
+    with the tip it was checked against as parent. -/
+theorem crash_atomic_commit (j : Nat) (hj : j ≠ 0) (s : Sys) (h : ReachB j s) (c : Nat) (p : Proc) (id : Nat)
+    (hp : (s.cl c).proc = some p) (hid : p.ownedId j = some id) :
+    (¬ Ref s.store j id) ∨
+    (∃ b tip att n, p = .bc b (.update tip id att (.putHead n)) ∧
+      s.store (.cobj j id) = some (.commit tip b.adds b.dels) ∧
+      s.store (.ent j n) = some (.entry [.update b.branch id])) := by
+  obtain ⟨e, h1, h2, h3⟩ := h.inv hj
+  have hbc := h3.bc c p hp
+  cases p with
+  | bc b ph =>
+    cases ph with
+    | lookup pc => simp [Proc.ownedId] at hid
+    | putObj tip id' =>
+      simp only [Proc.ownedId] at hid; split at hid
+      · rename_i hb; cases hid; exact Or.inl (hbc hb).2.2.2.2
+      · cases hid
+    | cleanup id' err =>
+      simp only [Proc.ownedId] at hid; split at hid
+      · rename_i hb; cases hid; exact Or.inl (hbc hb).2.2
+      · cases hid
+    | update tip id' att pc =>
+      simp only [Proc.ownedId] at hid; split at hid
+      · rename_i hb; cases hid
+        obtain ⟨_, _, _, a4, a5⟩ := hbc hb
+        cases hpc : pc.isPutHead with
+        | false => exact Or.inl (a5 hpc)
+        | true =>
+          cases pc <;> simp [JPc.isPutHead] at hpc
+          rename_i n
+          right
+          have hon : (s.cl c).onJ j = some (b.slot, .putHead n) := by simp [Client.onJ, hp, Proc.onJ, hb]
+          have hk : (s.cl c).kindOn j = some (.commit (.update b.branch tip id) att) := by
+            simp [Client.kindOn, hp, Proc.kindOn, hb]
+          obtain ⟨op, a, hk', hent⟩ := h2.pcs c b.slot _ _ hon hk
+          cases hk'
+          exact ⟨b, tip, att, n, rfl, a4, hent⟩
+      · cases hid
+  | _ => simp [Proc.ownedId] at hid
 
 /-- **crash_readable** — after any crashes the journal replays without error up to HEAD: a cold
     reader gets a table, namely the one before or after the interrupted commit. -/
